@@ -97,6 +97,8 @@ def c03(tier):
     observe_events(run, texts, ["C03"], "random-grid")
     run.samples.append({"input": texts[0]})
     run.validate()
+    from . import stages
+    stages.conformance(run, texts[:1500] if tier == "quick" else texts[:30000])
     run.assumptions = ["expat and the projection (verifpy/project.py) are trusted",
                        "TLC's evaluation of Reference!C03_OK is trusted",
                        "the guarantee about the code is per observed execution (bounded-exhaustive families + samples)"]
@@ -766,6 +768,8 @@ def c05(tier):
     observe_events(run, gen.dedup(muts + rnd + corpus), ["C05s"], "soundness")
     run.samples.append({"input": muts[0]})
     run.validate()
+    from . import stages
+    stages.conformance(run, gen.dedup(muts + rnd)[:1500 if tier == "quick" else 40000])
     run.assumptions = std_assumptions() + ["a rounded box needs at least one edge character between its corners; a side is a '|' side (contains a '|')"]
     return run.finish()
 
